@@ -280,3 +280,40 @@ def gen_probe_buffer(rng, world_mods, max_probes=10, style=None):
     if rng.random() < 0.5:
         b.add('from %s import ' % rng.choice(tops), [('complete', 'import ', None)])
     return b
+
+
+# ---------------------------------------------------------------------------
+# corpus buffers: slices of the repository's own completion fixtures (real-world shapes the
+# seeded grammar does not produce: decorators, descriptors, nested scopes, comprehensions,
+# flow analysis, broken code ...).  The slice becomes part of the case, so a replay file does
+# not depend on the corpus.
+# ---------------------------------------------------------------------------
+
+CORPUS = ['classes', 'functions', 'generators', 'decorators', 'descriptors', 'flow_analysis', 'lambdas',
+          'inheritance', 'isinstance', 'dynamic_params', 'recursion', 'named_param', 'ordering', 'usages',
+          'goto', 'comprehensions', 'docstring', 'invalid', 'precedence', 'context', 'dynamic_arrays',
+          'basic', 'named_expression', 'keywords', 'async_', 'complex', 'parser']
+
+
+def corpus_slice(rng, min_lines=30, max_lines=110):
+    """-> (name, text) a window of a fixture file that starts and ends at a top-level boundary"""
+    import os
+    root = os.path.join(os.environ.get('VERIF_REPO', '/repo'), 'test', 'completion')
+    names = [n for n in CORPUS if os.path.exists(os.path.join(root, n + '.py'))]
+    if not names:
+        return None, None
+    name = rng.choice(names)
+    with open(os.path.join(root, name + '.py'), encoding='utf-8', errors='replace') as f:
+        lines = f.read().split('\n')
+    tops = [i for i, l in enumerate(lines) if l and not l[0].isspace() and (i == 0 or not lines[i - 1].strip()
+                                                                             or not lines[i - 1][0].isspace())]
+    if not tops:
+        tops = [0]
+    start = rng.choice(tops)
+    want = rng.randint(min_lines, max_lines)
+    ends = [t for t in tops if t - start >= want]
+    end = ends[0] if ends else len(lines)
+    end = min(end, start + max_lines + 40)
+    text = '\n'.join(lines[start:end]).rstrip('\n') + '\n'
+    # keep the text inside what splitlines()/JSON round-trips (fixtures are ASCII but for a few lines)
+    return name, text
